@@ -320,6 +320,18 @@ def checker_obligations(facts, families=None):
             continue
         k0 = "checker:" + key
         if key not in cur:
+            # a guarded constructor that now delegates to another constructor of its class: the guards are the target's
+            deleg = None
+            for f2 in functions_by(facts).values():
+                if f2.get("kind") == "ctor" and f2.get("rect") and "%s::%s(%d)" % (short(f2["rect"]), f2["name"], len(f2.get("params") or [])) == key.split("@")[0]:
+                    for i2 in f2.get("inits") or []:
+                        if i2.get("delegating"):
+                            tgt = [g for g in functions_by(facts).values() if g.get("pat") == strip(i2.get("e") or {}).get("cpat")]
+                            if tgt:
+                                deleg = "%s::%s(%d)" % (short(tgt[0]["rect"]), tgt[0]["name"], len(tgt[0].get("params") or []))
+            if deleg is not None and deleg in cur and all(it in cur[deleg]["items"] for it in want["items"]):
+                out.append(ob("validators.checker", k0, cur[deleg]["pat"], "discharged", "%s now delegates to %s, which performs the same guards" % (key, deleg), cur[deleg]["qname"]))
+                continue
             out.append(ob("validators.checker", k0, "", "unrecognised", "checker %s is no longer a plain list of throwing guards (or is gone): re-review spec/checkers.json" % key, ""))
             continue
         got = list(cur[key]["items"])
